@@ -140,7 +140,9 @@ def run_case(case):
         cov["sets_deepened"] += 1
     gens = 0
     model = first.model
-    plan = [("re-run of the same model object", "rerun"), ("second model built from the same objects", "rebuild"),
+    plan = [("re-run of the same model object", "rerun"), ("second re-run of the same model object", "rerun"),
+            ("third re-run of the same model object", "rerun"),
+            ("second model built from the same objects", "rebuild"),
             ("third model built from the same objects", "rebuild"), ("re-run of the third model", "rerun")]
     for label, how in plan:
         cov["executions"] += 1
